@@ -12,6 +12,16 @@ after unlock, unconditional store, lock ignored) must be infeasible on the binar
 Direct oracle (independent of the model), on every run: the process terminates; no query
 returns Pending; after a publication every query returns the published command, otherwise the
 guess; stdout equals the scenario's reference output.
+
+The background determination itself (session 3): the proofs assume nothing about the process table any
+more (`C20.describe_total`, `background_computation_returns`); on the implementation side
+`scan_mode` runs delta WITHOUT a pinned guess under chains of launcher processes with hostile command
+lines (empty, no file stem, blank, non-UTF-8, very long, shifted by dropped arguments, zombie at pid-1,
+parent exiting during the scan, git/rg parents, grandparents and siblings) - in a private pid namespace
+when `unshare` permits, so that the whole process table is known - and `describe_mode` feeds generated
+command lines to `describe_calling_process` through DELTA_VERIF_FORCE_GUESS. Oracle: delta terminates,
+exits 0, no thread panics, every query is answered with the logged guess (never Pending), the guess is
+the one the model's `scan` gives for that table and the rendering equals the run with that guess pinned.
 """
 import os
 import shutil
@@ -21,7 +31,7 @@ import sys
 from ..core import BUILD, hx, parallel_map, sha
 
 DRIVERS = ["drv_caller"]
-GENERATED = ["CallerShape"]
+GENERATED = ["CallerShape", "CallerDescribe"]
 
 NQ = 2            # queries whose ordering points are forced (later ones run free and are only judged)
 _REPORTED = set()
@@ -604,6 +614,9 @@ def _run(ctx, rep, mdl, wd):
                 rep.corr_case("caller.run", not res["impl_feasible"], info)
 
     subcommand_mode(ctx, rep, mdl, wd, feas.get("rg") or [])
+    scan_shape_check(ctx, rep, mdl)
+    describe_mode(ctx, rep, mdl, wd, feas.get("stdin-none") or [])
+    scan_mode(ctx, rep, mdl, wd, feas.get("stdin-none") or [])
 
     if not ctx.quick():
         stress(ctx, rep, wd, refs)
@@ -650,6 +663,8 @@ def replay(ctx, rep, obj):
         finally:
             shutil.rmtree(wd, ignore_errors=True)
         return
+    if scen in ("scan", "describe"):
+        return replay_scan(ctx, rep, c)
     if scen not in SCENARIOS:
         return run(ctx, rep)
     wd = workdir()
@@ -661,5 +676,812 @@ def replay(ctx, rep, obj):
             bad = oracle(rep, scen, schedule or "", r, p, ref["stdout"] if ref["rc"] == 0 else None)
             rep.case(key=(scen, schedule, i), nontrivial=True,
                      sample=dict(scenario=scen, schedule=schedule, rc=r["rc"], log=r["log"][-40:], failures=bad))
+    finally:
+        shutil.rmtree(wd, ignore_errors=True)
+
+
+# ---------------------------------------------------------------------------------------------
+# The background determination itself: `describe_calling_process` on arbitrary command lines and the
+# real process-table scan on hostile process tables. A panic there kills the thread before it takes
+# the CALLER mutex: nothing is stored or notified and the first query waits for ever.
+
+import signal as _signal
+
+SCAN_TIMEOUT = 12   # seconds for the runs of describe_mode / scan_mode (an ordinary run takes well under a second)
+
+LAUNCHER_C = r'''
+/* c20-launcher: a chain of processes with ARBITRARY command lines between the check and delta.
+ * Level 0 (top) is started by the check; level i execs level i+1 (this program again, with the argv the
+ * chain file gives for that level); the last level starts delta with the input file on stdin.
+ * Chain file lines:  "T <flags>"  top level,  "L <flags> x<hex> x<hex> ..."  one per level (outermost first),
+ *                    "S x<hex> ..."  a sleeping process started right before the child by levels with flag s.
+ * flags: z = leave a zombie child (exited, not reaped) before starting the child; s = start the sleeper;
+ *        x<ms> = exit <ms> ms after starting the child instead of waiting for it (never for the top level).
+ * The top level is a child subreaper: it outlives everything, reaps, and writes delta's exit status to C20_OUT. */
+#define _GNU_SOURCE
+#include <errno.h>
+#include <fcntl.h>
+#include <signal.h>
+#include <stdio.h>
+#include <stdlib.h>
+#include <string.h>
+#include <sys/prctl.h>
+#include <sys/wait.h>
+#include <unistd.h>
+
+struct lvl { char flags[32]; char **argv; };
+static struct lvl top, levels[16], sib;
+static int nlevels, have_sib;
+
+static int hv(int c) { return c >= '0' && c <= '9' ? c - '0' : c >= 'a' && c <= 'f' ? c - 'a' + 10 : -1; }
+
+static char *unhex(const char *h) {
+  size_t n = strlen(h);
+  char *out = malloc(n / 2 + 2);
+  size_t j = 0;
+  if (*h != 'x') exit(120);
+  for (size_t i = 1; h[i] && h[i + 1]; i += 2) out[j++] = (char)(hv(h[i]) * 16 + hv(h[i + 1]));
+  out[j] = 0;
+  return out;
+}
+
+static char **parse_args(char *rest) {
+  size_t cap = 8, n = 0;
+  char **v = malloc(cap * sizeof *v);
+  for (char *t = strtok(rest, " "); t; t = strtok(NULL, " ")) {
+    if (n + 2 > cap) { cap *= 2; v = realloc(v, cap * sizeof *v); }
+    v[n++] = unhex(t);
+  }
+  v[n] = NULL;
+  return v;
+}
+
+static void parse(const char *path) {
+  FILE *f = fopen(path, "r");
+  if (!f) exit(121);
+  char *line = NULL; size_t cap = 0; ssize_t len;
+  while ((len = getline(&line, &cap, f)) > 0) {
+    if (line[len - 1] == '\n') line[len - 1] = 0;
+    char *l = strdup(line);
+    if (l[0] == 'T') { snprintf(top.flags, sizeof top.flags, "%s", l + 2); }
+    else if (l[0] == 'L' && nlevels < 16) {
+      char *fl = l + 2, *sp = strchr(fl, ' ');
+      if (!sp) exit(122);
+      *sp = 0;
+      snprintf(levels[nlevels].flags, sizeof levels[nlevels].flags, "%s", fl);
+      levels[nlevels].argv = parse_args(sp + 1);
+      if (!levels[nlevels].argv[0]) exit(123);
+      nlevels++;
+    } else if (l[0] == 'S') { sib.argv = parse_args(l + 2); have_sib = sib.argv[0] != NULL; }
+  }
+  fclose(f);
+}
+
+int main(void) {
+  const char *role = getenv("C20_ROLE");
+  const char *sfd = getenv("C20_STATUSFD");
+  if (role && !strcmp(role, "sleep")) {
+    /* holds nothing of the run: neither the status pipe nor the pipes the check reads */
+    if (sfd) close(atoi(sfd));
+    int nul = open("/dev/null", O_RDWR);
+    if (nul >= 0) { dup2(nul, 0); dup2(nul, 1); dup2(nul, 2); }
+    sleep(120);
+    return 0;
+  }
+  const char *self = getenv("C20_SELF"), *chain = getenv("C20_CHAINFILE"), *delta = getenv("C20_DELTA");
+  const char *in = getenv("C20_STDIN"), *outp = getenv("C20_OUT");
+  if (!self || !chain || !delta || !in || !outp) return 124;
+  int level = atoi(getenv("C20_LEVEL") ? getenv("C20_LEVEL") : "0");
+  parse(chain);
+  int p[2] = {-1, -1}, statusfd;
+  if (level == 0) {
+    if (pipe(p)) return 125;
+    statusfd = p[1];
+    char b[16]; snprintf(b, sizeof b, "%d", statusfd); setenv("C20_STATUSFD", b, 1);
+    prctl(PR_SET_CHILD_SUBREAPER, 1);
+  } else statusfd = sfd ? atoi(sfd) : -1;
+  const char *flags = level == 0 ? top.flags : levels[level - 1].flags;
+  int last = level == nlevels;
+  if (strchr(flags, 'z')) {
+    /* wait until the child IS a zombie (exited, command line gone) but do not reap it */
+    pid_t z = fork();
+    if (z == 0) _exit(0);
+    siginfo_t si;
+    while (waitid(P_PID, (id_t)z, &si, WEXITED | WNOWAIT) < 0 && errno == EINTR) {}
+  }
+  if (strchr(flags, 's') && have_sib) {
+    /* wait until the sleeper has exec'd (its command line is the sibling's, no longer a copy of ours):
+       the close-on-exec pipe reports EOF then */
+    int sp[2];
+    if (pipe2(sp, O_CLOEXEC)) return 125;
+    pid_t s = fork();
+    if (s == 0) { close(sp[0]); setenv("C20_ROLE", "sleep", 1); execv(self, sib.argv); _exit(127); }
+    close(sp[1]);
+    char c;
+    while (read(sp[0], &c, 1) < 0 && errno == EINTR) {}
+    close(sp[0]);
+  }
+  pid_t child = fork();
+  if (child < 0) return 126;
+  if (child == 0) {
+    if (last) {
+      int fd = open(in, O_RDONLY);
+      if (fd < 0) _exit(127);
+      dup2(fd, 0); close(fd);
+      if (p[0] >= 0) close(p[0]);
+      char *dargv[] = {(char *)delta, "--no-gitconfig", NULL};
+      execv(delta, dargv);
+      _exit(127);
+    }
+    char b[16]; snprintf(b, sizeof b, "%d", level + 1); setenv("C20_LEVEL", b, 1);
+    if (p[0] >= 0) close(p[0]);
+    execv(self, levels[level].argv);
+    _exit(127);
+  }
+  if (last) dprintf(statusfd, "P %d\n", (int)child);
+  if (level > 0) {
+    const char *x = strchr(flags, 'x');
+    if (x) { usleep(1000 * (useconds_t)atoi(x + 1)); _exit(0); }
+    int st = 0;
+    while (waitpid(child, &st, 0) < 0 && errno == EINTR) {}
+    if (last) dprintf(statusfd, "R %d\n", st);
+    _exit(0);
+  }
+  /* top level: wait until every process that holds the status pipe (all levels, delta) is gone */
+  close(p[1]);
+  char buf[4096]; size_t n = 0; ssize_t r;
+  while ((r = read(p[0], buf + n, sizeof buf - 1 - n)) != 0) { if (r < 0) { if (errno == EINTR) continue; break; } n += (size_t)r; if (n >= sizeof buf - 1) break; }
+  buf[n] = 0;
+  int dpid = -1, dst = -1, have = 0;
+  for (char *l = strtok(buf, "\n"); l; l = strtok(NULL, "\n")) {
+    if (l[0] == 'P') dpid = atoi(l + 2);
+    if (l[0] == 'R') { dst = atoi(l + 2); have = 1; }
+  }
+  for (int i = 0; i < 400; i++) {
+    int st; pid_t w = waitpid(-1, &st, WNOHANG);
+    if (w > 0) { if (w == dpid && !have) { dst = st; have = 1; } continue; }
+    if (w < 0 && errno == ECHILD) break;
+    if (have) break;
+    usleep(5000);
+  }
+  FILE *o = fopen(outp, "w");
+  if (o) {
+    if (!have) fprintf(o, "rc=unknown\n");
+    else if (WIFEXITED(dst)) fprintf(o, "rc=%d\n", WEXITSTATUS(dst));
+    else fprintf(o, "rc=signal%d\n", WTERMSIG(dst));
+    fclose(o);
+  }
+  return 0;
+}
+'''
+
+
+def build_launcher():
+    """Compile the launcher once per source text (kept in .build). None if there is no C compiler."""
+    exe = os.path.join(BUILD, "c20-launcher-" + sha(LAUNCHER_C)[:12])
+    if os.path.exists(exe):
+        return exe
+    cc = shutil.which("cc") or shutil.which("gcc") or shutil.which("clang")
+    if not cc:
+        return None
+    src = exe + ".%d.c" % os.getpid()
+    tmp = exe + ".%d.tmp" % os.getpid()
+    with open(src, "w") as f:
+        f.write(LAUNCHER_C)
+    p = subprocess.run([cc, "-O1", "-o", tmp, src], stdout=subprocess.PIPE, stderr=subprocess.STDOUT, text=True)
+    os.remove(src)
+    if p.returncode != 0 or not os.path.exists(tmp):
+        return None
+    os.replace(tmp, exe)
+    return exe
+
+
+_NS = []
+
+
+def ns_prefix():
+    """Command prefix that runs a program as pid 1 of a private pid namespace with its own /proc
+    (the process table delta's scan sees is then exactly what the launcher creates), or None."""
+    if not _NS:
+        u = shutil.which("unshare")
+        ok = False
+        if u and os.environ.get("C20_NO_PIDNS") != "1":
+            try:
+                ok = subprocess.run([u, "--pid", "--fork", "--mount-proc", "true"], stdin=subprocess.DEVNULL,
+                                    stdout=subprocess.DEVNULL, stderr=subprocess.DEVNULL, timeout=20).returncode == 0
+            except (OSError, subprocess.TimeoutExpired):
+                ok = False
+        _NS.append([u, "--pid", "--fork", "--mount-proc"] if ok else None)
+    return _NS[0]
+
+
+# char::is_whitespace (what str::trim and split_whitespace use)
+RUST_WS = set("\t\n\x0b\x0c\r \x85\xa0\u1680\u2000\u2001\u2002\u2003\u2004\u2005\u2006\u2007\u2008\u2009\u200a\u2028\u2029\u202f\u205f\u3000")
+
+
+def rust_trim(s):
+    i, j = 0, len(s)
+    while i < j and s[i] in RUST_WS:
+        i += 1
+    while j > i and s[j - 1] in RUST_WS:
+        j -= 1
+    return s[i:j]
+
+
+def sysinfo_cmd(raw):
+    """`Process::cmd()` of sysinfo 0.29 for a process started with argv `raw` (list of bytes): /proc/<pid>/cmdline is
+    split at NUL; empty pieces and pieces that are not UTF-8 are DROPPED; the others are trimmed."""
+    out = []
+    for a in raw:
+        if len(a) == 0:
+            continue
+        try:
+            out.append(rust_trim(a.decode("utf-8")))
+        except UnicodeDecodeError:
+            continue
+    return out
+
+
+def rust_debug(s):
+    return '"' + s.replace("\\", "\\\\").replace('"', '\\"') + '"'
+
+
+def model_called_to_log(ans):
+    """`GitShow long=x..,x.. short=.. last=-|x.. file=-|x..` (model) -> the text `verif::describe` logs."""
+    w = ans.split(" ")
+    if w[0] in ("OtherGrep", "None"):
+        return w[0]
+    f = dict(x.split("=", 1) for x in w[1:])
+    from ..core import unhxs
+
+    def lst(v):
+        items = sorted(set(unhxs(x) for x in v.split(",") if x), key=lambda t: t.encode("utf-8"))
+        return "[" + ", ".join(rust_debug(t) for t in items) + "]"
+
+    def opt(v):
+        return "None" if v == "-" else "Some(" + rust_debug(unhxs(v)) + ")"
+
+    out = "%s long=%s short=%s last=%s" % (w[0], lst(f["long"]), lst(f["short"]), opt(f["last"]))
+    if w[0] == "GitShow":
+        out += " file=" + opt(f["file"])
+    return out
+
+
+def argv_fields(argv):
+    return "%d%s" % (len(argv), "".join(" " + hx(a) for a in argv))
+
+
+def model_describe(mdl, argvs):
+    """-> per argv: the guess text a table consisting of that one process would log ('None' for
+    ArgError/OtherProcess), 'PANIC', or None without a model; and whether it is an `Args` result."""
+    if mdl is None:
+        return [(None, False)] * len(argvs)
+    out = []
+    for a in mdl.ask(["caller.describe " + argv_fields(x) for x in argvs]):
+        if a.startswith("ok args "):
+            out.append((model_called_to_log(a[len("ok args "):]), True))
+        elif a.startswith("ok "):
+            out.append(("None", False))
+        elif a.startswith("PANIC"):
+            out.append(("PANIC", False))
+        else:
+            out.append((None, False))
+    return out
+
+
+def model_scan(mdl, tables):
+    """tables: [(ancestors, sibling|None, neighbours)] (normalised command lines) -> guess text | 'PANIC' | None."""
+    if mdl is None:
+        return [None] * len(tables)
+    reqs = []
+    for anc, sib, ns in tables:
+        r = "caller.scan %d" % len(anc) + "".join(" " + argv_fields(a) for a in anc)
+        r += " 1 " + argv_fields(sib) if sib is not None else " 0"
+        r += " %d" % len(ns) + "".join(" " + argv_fields(a) for a in ns)
+        reqs.append(r)
+    out = []
+    for a in mdl.ask(reqs):
+        if a.startswith("ok guess "):
+            out.append(model_called_to_log(a[len("ok guess "):]))
+        elif a.startswith("PANIC"):
+            out.append("PANIC")
+        else:
+            out.append(None)
+    return out
+
+
+# --- generated command lines
+
+STEMLESS = ["/", ".", "..", "./", "//", "a/..", "/.", "../..", "git/..", "./."]
+GIT_NAMES = ["git", "/usr/bin/git", "GIT", "git.exe", "Git.EXE", "git.foo.bar", "./git", "/opt/x/git.", "a/./git", "git/", "/usr/lib/git-core/git"]
+GREP_NAMES = ["rg", "RG", "rg.exe", "/usr/bin/ack", "sift", "Sift.1", "/opt/ripgrep/rg"]
+OTHER_NAMES = ["sh", "-bash", "/bin/zsh", "python3", "gitk", "git-lfs", ".git", ".git.x", "legit", "tig", "less", "delta", "rga",
+               "ack-grep", "make", "é日", "a.b.c", "..git", "...", "git..", "-", "--", "=", ":"]
+GIT_SUBS = ["diff", "show", "log", "reflog", "grep", "blame"]
+NOT_SUBS = ["status", "commit", "Diff", "diffx", "sho", "-diff", "stash", "difftool"]
+PRE = ["-c", "a=b", "-C", "/tmp", "--no-pager", "-p", "--git-dir=x", "--paginate", "-c", "color.ui=always"]
+POST = ["--word-diff", "--color-words=.", "--word-diff-regex=a=b", "-p", "-abc", "-", "--", "--=", "-=", "HEAD", "HEAD:src/x.rs",
+        "HEAD:", ":", ":x", "a:b:c/d.rs", "x:..", "x:/", "x:./", "rev:dir/", "é日:ü/ñ.rs", "-x", "file.rs", "=", "--a=b=c",
+        "--stat", "-U3", "--", "HEAD~1", "v1..v2", "-S", "x\"y", "a\\b", "--no-index", "-w", "--color=always", "x.rs", "-n", "-e", "foo"]
+
+
+def gen_git_line(rng):
+    """A command line of a process named git (stem-wise): known or unknown subcommand, option soup."""
+    a = [rng.choice(GIT_NAMES)]
+    a += [rng.choice(PRE) for _ in range(rng.choice([0, 0, 1, 2, 3]))]
+    r = rng.random()
+    if r < 0.8:
+        a.append(rng.choice(GIT_SUBS))
+    elif r < 0.95:
+        a.append(rng.choice(NOT_SUBS))
+    a += [rng.choice(POST) for _ in range(rng.choice([0, 1, 2, 3, 5, 8]))]
+    return a
+
+
+def gen_line(rng):
+    """(class, tokens): one generated command line (tokens are non-empty and free of white space)."""
+    r = rng.random()
+    if r < 0.08:
+        return "empty-command-line", []
+    if r < 0.22:
+        return "command-without-file-stem", [rng.choice(STEMLESS)] + [rng.choice(GIT_SUBS + POST) for _ in range(rng.choice([0, 1, 3]))]
+    if r < 0.62:
+        return "git-command-line", gen_git_line(rng)
+    if r < 0.74:
+        return "grep-tool-command-line", [rng.choice(GREP_NAMES)] + [rng.choice(POST) for _ in range(rng.choice([0, 1, 3]))]
+    if r < 0.92:
+        return "other-command-line", [rng.choice(OTHER_NAMES)] + [rng.choice(GIT_SUBS + POST + GIT_NAMES) for _ in range(rng.choice([0, 1, 2, 4]))]
+    n = rng.choice([200, 2000])
+    return "long-command-line", [rng.choice(GIT_NAMES + OTHER_NAMES)] + [rng.choice(POST + GIT_SUBS) for _ in range(n)]
+
+
+# --- describe_calling_process through DELTA_VERIF_FORCE_GUESS
+
+def pinned_run(ctx, wd, guess, tag, schedule=None):
+    """delta --no-gitconfig < DIFF with the scan result pinned to describe_calling_process(guess.split_whitespace())."""
+    e = dict(os.environ)
+    for k in list(e):
+        if k.startswith("DELTA_") or k.startswith("GIT_") or k in ("PAGER", "BAT_PAGER", "BAT_THEME", "COLORTERM", "LESS"):
+            e.pop(k)
+    e.update(HOME=os.path.join(wd, "home"), GIT_CONFIG_NOSYSTEM="1", DELTA_VERIF_FORCE_GUESS=guess, RUST_BACKTRACE="0")
+    log = os.path.join(wd, "log-" + tag)
+    if os.path.exists(log):
+        os.remove(log)
+    e["DELTA_VERIF_SCHEDULE_LOG"] = log
+    if schedule:
+        e.update(DELTA_VERIF_SCHEDULE=schedule, DELTA_VERIF_SCHEDULE_TIMEOUT_MS="6000", DELTA_VERIF_SCHEDULE_SETTLE_MS="20")
+    try:
+        p = subprocess.run([ctx.delta, "--no-gitconfig"], input=DIFF, stdout=subprocess.PIPE, stderr=subprocess.PIPE,
+                           env=e, timeout=SCAN_TIMEOUT, cwd=wd)
+        rc, out, err = p.returncode, p.stdout, p.stderr
+    except subprocess.TimeoutExpired as ex:
+        rc, out, err = "timeout", ex.stdout or b"", ex.stderr or b""
+    lines = open(log).read().split("\n") if os.path.exists(log) else []
+    if os.path.exists(log):
+        os.remove(log)
+    err = err.decode("utf-8", "replace")
+    return dict(rc=rc, stdout=out, stderr=err[:600], panicked="panicked at" in err, log=[ln for ln in lines if ln])
+
+
+def determination_oracle(rep, scen, cls, replay, run, parsed):
+    """What the property needs of one run in which nothing is published: delta terminates, exits 0, no thread
+    panics, at least one query is made and every query is answered - never with Pending, always with the guess
+    the background determination logged. Returns the failure tags."""
+    bad = []
+
+    def v(tag, what):
+        bad.append(tag)
+        sig = "c20:%s:%s:%s" % (scen, cls, tag)
+        rep.count("oracle-failure:" + sig)
+        if sig not in _REPORTED:
+            _REPORTED.add(sig)
+            rep.violation(sig, what, replay)
+
+    panicked = run.get("panicked", "panicked at" in run["stderr"])
+    if run["rc"] == "timeout":
+        v("blocks-forever", "delta did not terminate within %d s: the first calling_process() query waits on the condvar for ever%s"
+          % (SCAN_TIMEOUT, " (the background thread panicked before it took the CALLER mutex: nothing stored, nobody notified)"
+             if panicked else ""))
+        return bad
+    if panicked:
+        v("determination-panicked", "a thread of delta panicked: " + run["stderr"][-200:])
+    if run["rc"] == 96:
+        return bad
+    if run["rc"] != 0:
+        v("exit-status", "exit status %r" % (run["rc"],))
+    answered = 0
+    for k in sorted(parsed["queries"]):
+        q = parsed["queries"][k]
+        if not (q["ret"] and q["checks"]):
+            continue
+        answered += 1
+        res = q["checks"][-1]
+        if res == "Pending":
+            v("pending-returned", "query %d returned Pending" % k)
+        elif parsed["guess"] is not None and res != parsed["guess"]:
+            v("stale-answer", "query %d returned %r, the background determination gave %r" % (k, res, parsed["guess"]))
+    if run["rc"] == 0 and answered == 0:
+        v("no-query-answered", "the input has a hunk but no calling_process() query was answered")
+    if run["rc"] == 0 and parsed["guess"] is None:
+        v("determination-unfinished", "delta finished but the background determination logged no result")
+    return bad
+
+
+def describe_mode(ctx, rep, mdl, wd, schedules):
+    """Generated command lines -> describe_calling_process (through DELTA_VERIF_FORCE_GUESS, i.e. on the background
+    thread, in place of the scan) vs `CallerScan.describe`; the determination oracle on every run."""
+    fixed = [("empty-command-line", []), ("command-without-file-stem", ["/"]), ("command-without-file-stem", [".."]),
+             ("command-without-file-stem", ["."]), ("git-command-line", ["git", "show", "HEAD:"]),
+             ("git-command-line", ["git", "show", "HEAD"]), ("git-command-line", ["git", "diff", "-"]),
+             ("git-command-line", ["git", "log", "--=", "--", "--x"]), ("git-command-line", ["git"]),
+             ("git-command-line", ["GIT.exe", "blame", "a:b:c"]), ("grep-tool-command-line", ["rg"])]
+    lines = fixed + [gen_line(ctx.rng) for _ in range(ctx.n(40, 800))]
+    picks = [ctx.rng.choice([None, None] + list(schedules)) for _ in lines]
+    want = model_describe(mdl, [t for _, t in lines])
+
+    def one(ij):
+        i, ((cls, toks), sched) = ij
+        r = pinned_run(ctx, wd, " ".join(toks), "desc-%d" % i, sched)
+        return r, parse_log(r["log"])
+
+    for ((cls, toks), sched, (w, _), (r, parsed)) in zip(lines, picks, want, parallel_map(one, list(enumerate(zip(lines, picks))), workers=12)):
+        shown = toks if len(toks) <= 40 else toks[:40] + ["… (%d arguments)" % len(toks)]
+        replay = dict(scenario="describe", cls=cls, tokens=toks if len(toks) <= 400 else None, shown=shown, schedule=sched,
+                      env={"DELTA_VERIF_FORCE_GUESS": " ".join(shown)}, command="delta --no-gitconfig < one-hunk diff",
+                      rc=r["rc"], log=r["log"][-30:], stderr=r["stderr"], model=w)
+        bad = determination_oracle(rep, "describe", cls, replay, r, parsed)
+        rep.case(key=("describe", tuple(toks), sched), nontrivial=len(toks) != 1,
+                 sample=dict(scenario="describe", cls=cls, tokens=shown, schedule=sched, rc=r["rc"], guess=parsed["guess"], failures=bad))
+        rep.count("describe:%s:%s" % (cls, parsed["guess"].split(" ")[0] if parsed["guess"] else "no-guess"))
+        if w is not None and r["rc"] != 96:
+            agree = (w == "PANIC" and (r["rc"] == "timeout" or r["panicked"])) or (w != "PANIC" and parsed["guess"] == w)
+            rep.corr_case("caller.describe", agree, dict(scenario="describe", cls=cls, tokens=shown, schedule=sched,
+                                                         model=w, impl=parsed["guess"], rc=r["rc"], stderr=r["stderr"][-200:]))
+
+
+# --- the real scan under launcher chains
+
+def spec_table(spec, exe, delta, drop_from=None, keep_in_neighbours=True):
+    """The process table delta's scan sees for a launcher chain (normalised as sysinfo does), as
+    (ancestors nearest first, pid-1 process, neighbours). `drop_from`: index of a level that has exited
+    together with everything above it (delta then hangs below the top level)."""
+    lv = [sysinfo_cmd(a) for _, a in spec["levels"]]
+    flags = [spec["top"]] + [f for f, _ in spec["levels"]]
+    l0 = [exe]
+    alive = lv if drop_from is None else lv[drop_from + 1:]
+    anc = list(reversed(alive)) + [l0]
+    sibling_line = sysinfo_cmd(spec["sibling"]) if spec.get("sibling") else None
+    lastf = flags[-1]
+    if "s" in lastf and sibling_line is not None:
+        sib = sibling_line
+    elif "z" in lastf:
+        sib = []
+    else:
+        sib = anc[0]
+    ns = [l0] + (lv if keep_in_neighbours else alive) + [[delta, "--no-gitconfig"]]
+    for f in flags:
+        if "z" in f:
+            ns.append([])
+        if "s" in f and sibling_line is not None:
+            ns.append(sibling_line)
+    if drop_from is not None and keep_in_neighbours:
+        ns.append([])      # an exited, not yet reaped level has no command line
+    return anc, sib, ns
+
+
+def acceptable_guesses(mdl, spec, exe, delta):
+    """Guess texts the model allows for the chain (a set: which of several recognised neighbours is nearest, and
+    how far a level that exits during the scan has got, is not determined), and text -> pin-able command line."""
+    if mdl is None:
+        return None, {}
+    variants = [spec_table(spec, exe, delta)]
+    xs = [i for i, (f, _) in enumerate(spec["levels"]) if "x" in f]
+    for i in xs:
+        variants += [spec_table(spec, exe, delta, drop_from=i), spec_table(spec, exe, delta, drop_from=i, keep_in_neighbours=False)]
+        anc, sib, ns = spec_table(spec, exe, delta, drop_from=i)
+        variants += [([], sib, ns), (anc[:1], sib, ns)]          # parent_process() failed half-way / loop broke early
+    acc, pin = set(), {"None": "none"}
+    for anc, sib, ns in variants:
+        procs = anc[:3] + ([sib] if sib is not None else []) + ns
+        descr = model_describe(mdl, procs)
+        for a, (text, is_args) in zip(procs, descr):
+            if is_args and a and all(t and not (set(t) & RUST_WS) for t in a):
+                pin.setdefault(text, " ".join(a))
+        g0, = model_scan(mdl, [(anc, sib, [])])
+        g1, = model_scan(mdl, [(anc, sib, ns)])
+        if g0 is None or g1 is None:
+            return None, pin
+        if g0 == "None" and g1 != "None" and g1 != "PANIC":
+            acc |= {t for (t, is_args) in model_describe(mdl, ns) if is_args}     # any recognised neighbour
+        else:
+            acc.add(g1)
+    return acc, pin
+
+
+def scan_run(ctx, wd, exe, nsp, spec, tag):
+    d = os.path.join(wd, "scan-" + tag)
+    os.makedirs(d, exist_ok=True)
+    chain, out, log, inp = (os.path.join(d, x) for x in ("chain", "out", "log", "in.diff"))
+    with open(inp, "wb") as f:
+        f.write(DIFF)
+    with open(chain, "w") as f:
+        f.write("T %s\n" % (spec["top"] or "-"))
+        for fl, av in spec["levels"]:
+            f.write("L %s %s\n" % (fl or "-", " ".join("x" + a.hex() for a in av)))
+        if spec.get("sibling"):
+            f.write("S %s\n" % " ".join("x" + a.hex() for a in spec["sibling"]))
+    e = dict(os.environ)
+    for k in list(e):
+        if k.startswith("DELTA_") or k.startswith("GIT_") or k.startswith("C20_") or k in ("PAGER", "BAT_PAGER", "BAT_THEME", "COLORTERM", "LESS"):
+            e.pop(k)
+    e.update(HOME=os.path.join(wd, "home"), GIT_CONFIG_NOSYSTEM="1", C20_SELF=exe, C20_CHAINFILE=chain, C20_DELTA=ctx.delta,
+             C20_STDIN=inp, C20_OUT=out, DELTA_VERIF_SCHEDULE_LOG=log, RUST_BACKTRACE="0")
+    if spec.get("schedule"):
+        e.update(DELTA_VERIF_SCHEDULE=spec["schedule"], DELTA_VERIF_SCHEDULE_TIMEOUT_MS="6000", DELTA_VERIF_SCHEDULE_SETTLE_MS="20")
+    p = subprocess.Popen((nsp or []) + [exe], stdin=subprocess.DEVNULL, stdout=subprocess.PIPE, stderr=subprocess.PIPE, env=e,
+                         cwd=wd, start_new_session=True)
+    try:
+        so, se = p.communicate(timeout=SCAN_TIMEOUT)
+        rc = None
+    except subprocess.TimeoutExpired:
+        rc = "timeout"
+        try:
+            os.killpg(p.pid, _signal.SIGKILL)
+        except ProcessLookupError:
+            pass
+        so, se = p.communicate()
+    try:
+        os.killpg(p.pid, _signal.SIGKILL)      # sleepers
+    except (ProcessLookupError, PermissionError):
+        pass
+    if rc is None:
+        txt = open(out).read().strip() if os.path.exists(out) else ""
+        rc = int(txt[3:]) if txt.startswith("rc=") and txt[3:].isdigit() else (txt[3:] or "launcher-exit-%s" % p.returncode)
+    lines = open(log).read().split("\n") if os.path.exists(log) else []
+    shutil.rmtree(d, ignore_errors=True)
+    se = se.decode("utf-8", "replace")
+    return dict(rc=rc, stdout=so, stderr=se[:600], panicked="panicked at" in se, log=[ln for ln in lines if ln])
+
+
+def _b(xs):
+    return [x if isinstance(x, bytes) else x.encode("utf-8") for x in xs]
+
+
+def hostile_line(rng):
+    """(class, raw argv) of one launcher level that the callback must treat as just another process."""
+    k = rng.randrange(9)
+    extra = [rng.choice(GIT_SUBS + POST) for _ in range(rng.choice([0, 0, 1, 3]))]
+    if k == 0:
+        return "empty-argv", [b""]
+    if k == 1:
+        return "non-utf8-argv", rng.choice([[b"\xff\xfe\xfd"], [b"\xc3", b"\xff"], [b"sh\xff", b"\x80diff"]])
+    if k == 2:
+        return "blank-argv0", _b([rng.choice([" ", "\t", " \n ", "\u3000"])] + extra)
+    if k == 3:
+        return "argv0-without-file-stem", _b([rng.choice(STEMLESS)] + extra)
+    if k == 4:
+        return "long-argv", rng.choice([[b"a" * 100000], _b(["sh"] + ["x"] * 3000), [b"/".join([b"d"] * 20000)],
+                                        _b(["sh", "-c", "y" * 120000]), _b(["/"] + ["-p"] * 5000)])
+    if k == 5:
+        return "dotted-name", _b([rng.choice([".git", ".git.x", "..git", "...", "git..", "gitk", "git-lfs", "rga", ".rg"])] + extra)
+    if k == 6:
+        return "padded-args", _b([rng.choice(["  sh ", "\tbash\n", " /bin/zsh"])] + [" " + x + " " for x in extra])
+    if k == 7:
+        return "option-like-argv0", _b([rng.choice(["-", "--", "-bash", "=", ":", "--word-diff"])] + extra)
+    return "ordinary-shell", _b([rng.choice(["sh", "/bin/bash", "python3", "make", "less"])] + extra)
+
+
+def recognised_line(rng):
+    """(class, raw argv) of a level the callback recognises (after sysinfo's normalisation)."""
+    k = rng.randrange(6)
+    if k == 0:
+        return "git-after-dropped-args", _b(rng.choice([[b"", "git"], [b"\xff", "git"], [b"", b"\xfe", "/usr/bin/git"]])
+                                             + [rng.choice(GIT_SUBS)] + [rng.choice(POST) for _ in range(rng.choice([0, 1, 3]))])
+    if k == 1:
+        return "git-padded", _b([" git ", "\t" + rng.choice(GIT_SUBS) + "\n"] + [rng.choice(POST) for _ in range(rng.choice([0, 2]))])
+    if k == 2:
+        return "grep-tool", _b([rng.choice(GREP_NAMES)] + [rng.choice(POST) for _ in range(rng.choice([0, 2]))])
+    if k == 3:
+        return "git-long", _b(["git", "-" + "p" * 60000, rng.choice(GIT_SUBS)] + [rng.choice(POST) for _ in range(1500)])
+    return "git", _b(gen_git_line(rng))
+
+
+def gen_specs(ctx, schedules):
+    rng = ctx.rng
+    specs = []
+
+    def add(cls, levels, top="-", sibling=None):
+        specs.append(dict(cls=cls, top=top, levels=levels, sibling=sibling,
+                          schedule=rng.choice([None, None] + list(schedules))))
+
+    sh = _b(["sh", "-c", "delta"])
+    git_show = _b(["git", "show", "--word-diff"])
+    # the fixed family: each hostile shape as parent, grand-parent and great-grand-parent
+    for cls, line in [("empty-argv", [b""]), ("non-utf8-argv", [b"\xff\xfe\xfd"]), ("blank-argv0", [b" "]),
+                      ("argv0-without-file-stem", [b"/"]), ("argv0-without-file-stem", [b".."]),
+                      ("argv0-without-file-stem", [b".", b"diff"]), ("long-argv", [b"a" * 100000])]:
+        add("parent-" + cls, [("-", line)])
+        add("grandparent-" + cls, [("-", line), ("-", sh)])
+    add("great-grandparent-empty-argv", [("-", [b""]), ("-", sh), ("-", sh)])
+    add("parent-empty-argv-under-git", [("-", git_show), ("-", [b""])])
+    add("zombie-at-pid-minus-1", [("z", sh)])
+    add("zombie-at-pid-minus-1-under-git", [("-", git_show), ("z", sh)])
+    add("zombies-in-pid-range", [("z", sh), ("z", sh)], top="z")
+    add("no-parent-chain", [])
+    add("git-sibling", [("s", sh)], sibling=_b(["git", "blame", "x.rs"]))
+    add("empty-argv-sibling", [("s", sh)], sibling=[b""])
+    for ms in (0, 2, 6, 15):
+        add("parent-exits-during-scan", [("-", sh), ("x%d" % ms, sh)])
+        add("git-parent-exits-during-scan", [("-", sh), ("x%d" % ms, git_show)])
+    add("git-parent", [("-", git_show)])
+    # random chains: 1-3 levels, hostile and recognised lines mixed, flags
+    for _ in range(ctx.n(14, 500)):
+        levels, names = [], []
+        for _ in range(rng.choice([1, 2, 2, 3])):
+            c, line = hostile_line(rng) if rng.random() < 0.7 else recognised_line(rng)
+            fl = rng.choice(["-", "-", "-", "z", "s", "x%d" % rng.choice([0, 1, 3, 8, 20])])
+            levels.append((fl, line))
+            names.append(c + ("+" + fl[0] if fl != "-" else ""))
+        sibling = rng.choice([None, [b""], _b(gen_git_line(rng)), [b"\xff"]]) if any("s" in f for f, _ in levels) else None
+        add("chain:" + ">".join(names), levels, top=rng.choice(["-", "-", "z"]), sibling=sibling)
+    return specs
+
+
+def spec_replay(spec, nsp):
+    def show(a):
+        return a.decode("utf-8", "backslashreplace") if len(a) <= 200 else "%s… (%d bytes)" % (a[:40].decode("utf-8", "backslashreplace"), len(a))
+
+    def hexes(av):
+        return [a.hex() if len(a) <= 4096 else "REPEAT:%s*%d" % (a[:1].hex(), len(a)) if a == a[:1] * len(a) else a.hex() for a in av]
+    return dict(scenario="scan", cls=spec["cls"], schedule=spec.get("schedule"), top_flags=spec["top"],
+                levels=[dict(flags=f, argv=[show(a) for a in av][:30] + (["… (%d arguments)" % len(av)] if len(av) > 30 else []),
+                             argv_hex=hexes(av)) for f, av in spec["levels"]],
+                sibling_hex=hexes(spec["sibling"]) if spec.get("sibling") else None,
+                pid_namespace=bool(nsp),
+                how="each level is a process whose argv is `argv` (outermost first); the last one starts `delta --no-gitconfig` "
+                    "with a one-hunk diff on stdin; flags: z = leaves a zombie child first, s = starts the sibling first, "
+                    "x<ms> = exits <ms> ms after starting its child; no pinned guess: the real process-table scan runs")
+
+
+def unhexes(xs):
+    out = []
+    for h in xs:
+        if h.startswith("REPEAT:"):
+            b, n = h[7:].split("*")
+            out.append(bytes.fromhex(b) * int(n))
+        else:
+            out.append(bytes.fromhex(h))
+    return out
+
+
+def scan_case(ctx, rep, mdl, wd, exe, nsp, spec, i, refs):
+    acc, pin = acceptable_guesses(mdl, spec, exe, ctx.delta)
+    r = scan_run(ctx, wd, exe, nsp, spec, str(i))
+    parsed = parse_log(r["log"])
+    if nsp and acc is not None and "PANIC" not in acc and r["rc"] == 0 and parsed["guess"] is not None and parsed["guess"] not in acc:
+        # which processes of the chain are still alive (or have exec'd) when the scan looks is a matter of timing: a guess the
+        # model's tables do not explain counts only if it is reproducible
+        for k in range(2):
+            r2 = scan_run(ctx, wd, exe, nsp, spec, "%d-retry%d" % (i, k))
+            p2 = parse_log(r2["log"])
+            if not (r2["rc"] == 0 and p2["guess"] is not None and p2["guess"] not in acc):
+                rep.count("scan:unexplained-guess-not-reproduced")
+                r, parsed = r2, p2
+                break
+    replay = dict(spec_replay(spec, nsp), rc=r["rc"], log=r["log"][-30:], stderr=r["stderr"], model_allows=sorted(acc) if acc else acc)
+    cls = spec["cls"].split(":")[0] if spec["cls"].startswith("chain:") else spec["cls"]
+    if spec["cls"].startswith("chain:"):
+        cls = "chain:" + "+".join(sorted(set(x.split("+")[0] for x in spec["cls"][6:].split(">"))))
+    bad = determination_oracle(rep, "scan", cls, replay, r, parsed)
+
+    def v(tag, what):
+        bad.append(tag)
+        sig = "c20:scan:%s:%s" % (cls, tag)
+        rep.count("oracle-failure:" + sig)
+        if sig not in _REPORTED:
+            _REPORTED.add(sig)
+            rep.violation(sig, what, replay)
+
+    g = parsed["guess"]
+    if r["rc"] == 0 and g is not None and acc is not None and "PANIC" not in acc:
+        if g not in acc:
+            if nsp:
+                v("wrong-guess", "the background determination gave %r; for this process table the model's scan gives %r" % (g, sorted(acc)))
+            else:
+                rep.count("scan:guess-from-a-foreign-process(no pid namespace)")
+        elif g in pin:
+            key = pin[g]
+            if key not in refs:
+                ref = pinned_run(ctx, wd, key, "ref-%d" % i)
+                refs[key] = ref["stdout"] if ref["rc"] == 0 else None
+            if refs[key] is not None and r["stdout"] != refs[key]:
+                v("behaviour-differs", "stdout differs from the run with the same calling process pinned (%r)" % key)
+    return spec, r, parsed, bad, acc
+
+
+def scan_mode(ctx, rep, mdl, wd, schedules):
+    exe = build_launcher()
+    if exe is None:
+        rep.notes["scan_mode"] = "no C compiler: the launcher could not be built - real-scan scenarios skipped"
+        return
+    nsp = ns_prefix()
+    rep.notes["scan_mode"] = ("private pid namespace (unshare --pid --fork --mount-proc): the process table is exactly the launcher chain"
+                              if nsp else "no pid namespace available: foreign processes may be met by the scan; the guess is only "
+                              "compared when the model's table explains it")
+    rep.assumptions += ["sysinfo 0.29 Process::cmd(): /proc/<pid>/cmdline split at NUL, empty and non-UTF-8 pieces dropped, the rest trimmed "
+                        "(vlib/props/c20.py sysinfo_cmd) - used to predict the guess, not needed for termination"]
+    specs = gen_specs(ctx, schedules)
+    refs = {}
+    results = parallel_map(lambda ij: scan_case(ctx, rep, mdl, wd, exe, nsp, ij[1], ij[0], refs), list(enumerate(specs)), workers=8)
+    for spec, r, parsed, bad, acc in results:
+        rep.case(key=("scan", spec["cls"], repr(spec["levels"])[:2000], spec["top"], repr(spec.get("sibling"))[:500], spec.get("schedule")),
+                 nontrivial=True, sample=dict(scenario="scan", cls=spec["cls"], schedule=spec.get("schedule"), rc=r["rc"],
+                                              guess=parsed["guess"], failures=bad))
+        rep.count("scan:%s:%s" % (spec["cls"].split(":")[0], (parsed["guess"] or "no-guess").split(" ")[0]))
+        if spec.get("schedule") and r["rc"] != "timeout":
+            ev = parsed["events"]
+            rep.corr_case("scan.schedule", r["rc"] != 96 and ev == spec["schedule"].split(","),
+                          dict(scenario="scan", cls=spec["cls"], schedule=spec["schedule"], rc=r["rc"], events=ev))
+        if acc is not None and parsed["guess"] is not None and nsp:
+            rep.corr_case("caller.scan", parsed["guess"] in acc, dict(scenario="scan", cls=spec["cls"], impl=parsed["guess"], model=sorted(acc)))
+
+
+def scan_shape_check(ctx, rep, mdl):
+    """The shape of describe_calling_process extracted from REPO now, judged without the shared Generated/ directory
+    (same reason as shape_check): the accesses to the argument slice must be total ones and no unclassified panic point
+    may stand in the code the background thread runs before its guess is stored."""
+    import importlib.util
+    from ..core import REPO, ROOT
+    spec = importlib.util.spec_from_file_location("extractor_callerdescribe", os.path.join(ROOT, "tools", "extractors", "callerdescribe.py"))
+    ex = importlib.util.module_from_spec(spec)
+    spec.loader.exec_module(ex)
+    try:
+        src = ex.strip_hooks_and_comments(ex.strip_tests(ex.read(REPO, "src/utils/process.rs")))
+        d = ex.describe(src)
+        pts = ex.panic_points(src)
+    except SystemExit as e:
+        rep.broken_proofs.append("shape of describe_calling_process not recognised: %s" % e)
+        return
+    rep.notes["extracted_describe_shape"] = dict(command=d["cmd"], rest=d["rest"], empty_arm=d["empty_arm"], stem_arms=d["stem_arms"],
+                                                 panic_points=pts)
+    if d["cmd"][0] != "next" or d["rest"][0] not in ("iter", "skip") or not d["empty_arm"]:
+        rep.broken_proofs.append("C20.describe_shape_total / C20.describe_total: describe_calling_process takes the command by %s(%d), the "
+                                 "remaining arguments by %s(%d), arm for an empty slice: %r - it panics on a short argument slice"
+                                 % (d["cmd"] + d["rest"] + (d["empty_arm"],)))
+    loose = [p for p in pts if p[2] not in ("first_piece_of_split", "pid_minus_one", "i64_difference", "lock_result")]
+    if loose:
+        rep.broken_proofs.append("C20.scan_panic_points_total: unclassified panic points in the background determination: %r" % (loose[:6],))
+    if mdl is not None:
+        ans = mdl.ask(["caller.scanshape"])[0]
+        rep.notes["model_describe_shape"] = ans
+
+
+def replay_scan(ctx, rep, c):
+    mdl = ctx.model("drv_caller") if ctx.drivers_ok else None
+    wd = workdir()
+    try:
+        if c.get("scenario") == "describe":
+            toks = c.get("tokens")
+            if toks is None:
+                return
+            for i in range(3):
+                r = pinned_run(ctx, wd, " ".join(toks), "replay-%d" % i, c.get("schedule"))
+                parsed = parse_log(r["log"])
+                bad = determination_oracle(rep, "describe", c.get("cls", "?"), dict(c, rc=r["rc"], log=r["log"][-30:], stderr=r["stderr"]), r, parsed)
+                rep.case(key=("describe", tuple(toks), i), nontrivial=True,
+                         sample=dict(scenario="describe", tokens=toks[:40], rc=r["rc"], guess=parsed["guess"], stderr=r["stderr"][-200:], failures=bad))
+            return
+        exe = build_launcher()
+        if exe is None:
+            return
+        nsp = ns_prefix() if c.get("pid_namespace") else None
+        spec = dict(cls=c.get("cls", "?"), top=c.get("top_flags", "-"), schedule=c.get("schedule"),
+                    levels=[(lv["flags"], unhexes(lv["argv_hex"])) for lv in c.get("levels", [])],
+                    sibling=unhexes(c["sibling_hex"]) if c.get("sibling_hex") else None)
+        refs = {}
+        for i in range(3):
+            _, r, parsed, bad, acc = scan_case(ctx, rep, mdl, wd, exe, nsp, spec, i, refs)
+            rep.case(key=("scan", spec["cls"], i), nontrivial=True,
+                     sample=dict(scenario="scan", cls=spec["cls"], rc=r["rc"], guess=parsed["guess"], stderr=r["stderr"][-200:], failures=bad))
     finally:
         shutil.rmtree(wd, ignore_errors=True)
